@@ -938,6 +938,24 @@ def remove_value(source: NixSourceCode, npath: str) -> str:
         if not target_layer["scope"]:
             removed_layer = target_layer
             del layers[layer_index]
+            if layers and removed_layer["body_before"]:
+                # Trivia between the removed layer's `in` and what followed it
+                # (comments, blank lines) stays in front of what followed it.
+                kept = (
+                    list(layers[layer_index - 1]["body_before"])
+                    if layer_index > 0
+                    else list(target_expr.before)
+                )
+                for item in removed_layer["body_before"]:
+                    if item is empty_line and (not kept or kept[-1] is empty_line):
+                        # No blank line at the very start, and two blank lines
+                        # in a row collapse into one.
+                        continue
+                    kept.append(item)
+                if layer_index > 0:
+                    layers[layer_index - 1]["body_before"] = kept
+                else:
+                    target_expr.before = kept
 
         _write_scope_layers(target_expr, layers, restored_layer=removed_layer)
         if removed_layer and not layers:
